@@ -7,6 +7,7 @@ import (
 	"math/rand/v2"
 	"os"
 	"sort"
+	"time"
 
 	"github.com/scionproto/scion/control/beacon"
 	"github.com/scionproto/scion/pkg/addr"
@@ -96,42 +97,63 @@ func c26Gen(rng *rand.Rand) c26Case {
 	return c26Case{K: k, Cands: cands}
 }
 
-func c26Run(r *mon.Run, c c26Case, sample bool) {
-	n := len(c.Cands)
-	beacons := make([]beacon.Beacon, n)
-	idx := make(map[*seg.PathSegment]int, n)
-	ref := make([]beaconref.Cand, n)
-	for i, links := range c.Cands {
-		ps := &seg.PathSegment{}
-		for j, l := range links {
-			ps.ASEntries = append(ps.ASEntries, seg.ASEntry{
-				Local: addr.IA(l.IA),
-				HopEntry: seg.HopEntry{HopField: seg.HopField{
-					ConsIngress: uint16(j), ConsEgress: l.Egress,
-				}},
-			})
-		}
-		beacons[i] = beacon.Beacon{Segment: ps, InIfID: uint16(10 + i)}
-		idx[ps] = i
-		ref[i] = beaconref.Cand{Links: links}
+// c26Beacons builds the beacons of a candidate list.
+func c26Beacons(cands [][]beaconref.Link) []beacon.Beacon {
+	beacons := make([]beacon.Beacon, len(cands))
+	for i, links := range cands {
+		beacons[i] = beacon.Beacon{Segment: c26Segment(links), InIfID: uint16(10 + i)}
 	}
+	return beacons
+}
+
+func c26Segment(links []beaconref.Link) *seg.PathSegment {
+	ps := &seg.PathSegment{}
+	for j, l := range links {
+		ps.ASEntries = append(ps.ASEntries, seg.ASEntry{
+			Local: addr.IA(l.IA),
+			HopEntry: seg.HopEntry{HopField: seg.HopField{
+				ConsIngress: uint16(j), ConsEgress: l.Egress,
+			}},
+		})
+	}
+	return ps
+}
+
+// c26Run judges one selection on a fresh algorithm instance.
+func c26Run(r *mon.Run, c c26Case, sample bool) {
+	beacons := c26Beacons(c.Cands)
 	in := append([]beacon.Beacon(nil), beacons...)
 	var res []beacon.Beacon
 	p, stack := mon.Try(func() {
 		res = beacon.DefaultSelectionAlgorithm().SelectBeacons(context.Background(), in, c.K)
 	})
+	c26Judge(r, "C26:", "", &c, &c, beacons, res, p, stack, sample)
+}
+
+// c26Judge compares the result res (or the panic p) of selecting c.K beacons
+// from beacons (= c.Cands, in this order) with the reference, on this call's
+// inputs alone. kp prefixes the violation keys, ep the event types; wit is the
+// witness written with a violation (c itself, or the history c is a step of).
+func c26Judge(r *mon.Run, kp, ep string, c *c26Case, wit any, beacons, res []beacon.Beacon, p any, stack string, sample bool) {
+	n := len(c.Cands)
+	idx := make(map[*seg.PathSegment]int, n)
+	ref := make([]beaconref.Cand, n)
+	for i, links := range c.Cands {
+		idx[beacons[i].Segment] = i
+		ref[i] = beaconref.Cand{Links: links}
+	}
 	r.Eval(1)
 	exp := beaconref.Select(ref, c.K)
 	if p != nil {
-		key := "C26:panic:" + mon.PanicSite(stack)
+		key := kp + "panic:" + mon.PanicSite(stack)
 		if exp.K1 {
-			key = "C26:k=1"
+			key = kp + "k=1"
 		}
 		c.Note = fmt.Sprintf("panic: %v", p)
-		r.Violation(key, fmt.Sprintf("SelectBeacons(n=%d, k=%d) panicked: %v at %s", n, c.K, p, mon.PanicSite(stack)), c)
+		r.Violation(key, fmt.Sprintf("SelectBeacons(n=%d, k=%d) panicked: %v at %s", n, c.K, p, mon.PanicSite(stack)), wit)
 		if exp.K1 {
 			r.Class("k=1/panic")
-			r.Event("select_k1")
+			r.Event(ep + "select_k1")
 		}
 		return
 	}
@@ -151,7 +173,7 @@ func c26Run(r *mon.Run, c c26Case, sample bool) {
 	}
 	c.Got = got
 	if sample && r.WantSample() {
-		r.Sample(c)
+		r.Sample(wit)
 	}
 	switch {
 	case exp.All:
@@ -163,15 +185,15 @@ func c26Run(r *mon.Run, c c26Case, sample bool) {
 			cls = "n==0"
 		}
 		r.Class("all/" + cls)
-		r.Event("select_all")
+		r.Event(ep + "select_all")
 		if bad != "" || len(got) != n {
-			r.Violation("C26:n<=k", fmt.Sprintf("n=%d <= k=%d but %d beacons returned (%s); expected all candidates", n, c.K, len(got), bad), c)
+			r.Violation(kp+"n<=k", fmt.Sprintf("n=%d <= k=%d but %d beacons returned (%s); expected all candidates", n, c.K, len(got), bad), wit)
 		}
 	case exp.K1:
-		r.Event("select_k1")
+		r.Event(ep + "select_k1")
 		r.Class("k=1/returned")
 		if bad != "" || len(got) != 1 {
-			r.Violation("C26:k=1", fmt.Sprintf("k=1 < n=%d: expected exactly one candidate, got %v (%s)", n, got, bad), c)
+			r.Violation(kp+"k=1", fmt.Sprintf("k=1 < n=%d: expected exactly one candidate, got %v (%s)", n, got, bad), wit)
 		}
 	default:
 		diverse := exp.BestRest > exp.BestKept
@@ -199,9 +221,9 @@ func c26Run(r *mon.Run, c c26Case, sample bool) {
 			outcome = "most-diverse"
 		}
 		r.Class(fmt.Sprintf("k>=2/%s/%s/keptdiv>0=%v/k=%s", outcome, tie, exp.BestKept > 0, bucket(c.K)))
-		r.Event("select_" + outcome)
+		r.Event(ep + "select_" + outcome)
 		if bad != "" || len(got) != c.K {
-			r.Violation("C26:count", fmt.Sprintf("n=%d > k=%d: expected exactly k distinct candidates, got %v (%s)", n, c.K, got, bad), c)
+			r.Violation(kp+"count", fmt.Sprintf("n=%d > k=%d: expected exactly k distinct candidates, got %v (%s)", n, c.K, got, bad), wit)
 			return
 		}
 		var extra []int
@@ -210,14 +232,14 @@ func c26Run(r *mon.Run, c c26Case, sample bool) {
 				extra = append(extra, g)
 			}
 		}
-		for _, kp := range exp.Keep {
-			if !seen[kp] {
-				r.Violation("C26:kept", fmt.Sprintf("candidate %d is among the k-1=%d first ones but was not returned (got %v)", kp, c.K-1, got), c)
+		for _, kept := range exp.Keep {
+			if !seen[kept] {
+				r.Violation(kp+"kept", fmt.Sprintf("candidate %d is among the k-1=%d first ones but was not returned (got %v)", kept, c.K-1, got), wit)
 				return
 			}
 		}
 		if len(extra) != 1 {
-			r.Violation("C26:kept", fmt.Sprintf("expected exactly one candidate beyond the k-1 first ones, got %v", got), c)
+			r.Violation(kp+"kept", fmt.Sprintf("expected exactly one candidate beyond the k-1 first ones, got %v", got), wit)
 			return
 		}
 		ok := false
@@ -227,14 +249,14 @@ func c26Run(r *mon.Run, c c26Case, sample bool) {
 			}
 		}
 		if !ok {
-			key := "C26:further:first-remaining-expected"
+			key := kp + "further:first-remaining-expected"
 			if diverse {
-				key = "C26:further:most-diverse-expected"
+				key = kp + "further:most-diverse-expected"
 			}
 			r.Violation(key, fmt.Sprintf("n=%d k=%d: further candidate is %d (len %d, diversity %d); allowed %v "+
 				"(best diversity among first k-1 = %d, best among remaining = %d)",
 				n, c.K, extra[0], ref[extra[0]].Len(), beaconref.Diversity(ref[0], ref[extra[0]]),
-				exp.Further, exp.BestKept, exp.BestRest), c)
+				exp.Further, exp.BestKept, exp.BestRest), wit)
 		}
 	}
 }
@@ -254,27 +276,47 @@ func checkC26(r *mon.Run) {
 	r.Rule = "candidate lists of 0..32 loop-free beacons (1..8 AS entries, links drawn from a small pool and shared with the " +
 		"first candidate with probability 0..1, many equal lengths, exact duplicates) ordered by length x k in 1..n+2; " +
 		"the real baseAlgo.SelectBeacons result is compared with a literal transcription of the statement " +
-		"(beaconref.Select); class = outcome (all / k=1 / most-diverse / first-remaining) x tie shape x kept diversity x k bucket"
+		"(beaconref.Select); class = outcome (all / k=1 / most-diverse / first-remaining) x tie shape x kept diversity x k bucket. " +
+		"History phase: 3..7 SelectBeacons calls on ONE DefaultSelectionAlgorithm() instance, and 2..5 rounds of queries " +
+		"(propagate / register up, down, core) on ONE beacon.Store or CoreStore over an in-memory DB, while the candidate pool " +
+		"evolves between calls (new shortest beacon of the same or another origin, further beacons, removals incl. the first, k " +
+		"changes, identical repetition; recurring candidates are handed over as the same object or re-read as a new one); every " +
+		"call is judged on its own inputs (keys C26:history:*); class history/<what changed since the previous call>"
 	r.Assumptions = []string{
 		"diversity of a candidate with respect to the first = number of links (AS, egress interface) of the first that do not appear in the candidate (documented meaning of Beacon.Diversity)",
 		"candidates are ordered by length and loop-free (a link occurs at most once per beacon)",
 		"ties in both diversity and length among remaining candidates: any of them is accepted",
 		"k = 1 < n: only 'returns exactly one of the candidates, no panic' is judged (the statement has no first beacon to be diverse against)",
+		"history phase: the stores run on a harness DB (control/beacon.DB) that returns the admitted candidates ordered by length, newest or oldest first among equal lengths, and records what it handed over; a store query is judged per DB read with k = the policy's BestSetSize; insertion and policy filtering are not judged here",
 	}
 	if f := r.ReplayFile(); f != "" {
+		var raw struct {
+			Witness json.RawMessage `json:"witness"`
+		}
 		var rep struct {
 			Witness c26Case `json:"witness"`
 		}
+		var hist c26HistWitness
 		b, err := os.ReadFile(f)
 		if err == nil {
-			err = json.Unmarshal(b, &rep)
+			err = json.Unmarshal(b, &raw)
+		}
+		if err == nil {
+			err = json.Unmarshal(raw.Witness, &hist)
+		}
+		if err == nil && len(hist.Steps) == 0 {
+			err = json.Unmarshal(raw.Witness, &rep.Witness)
 		}
 		if err != nil {
 			fmt.Fprintln(os.Stderr, "replay:", err)
 			os.Exit(2)
 		}
-		rep.Witness.Got, rep.Witness.Note = nil, ""
-		c26Run(r, rep.Witness, true)
+		if len(hist.Steps) > 0 {
+			c26ReplayHistory(r, hist)
+		} else {
+			rep.Witness.Got, rep.Witness.Note = nil, ""
+			c26Run(r, rep.Witness, true)
+		}
 		r.Class("replay")
 		r.Class("replay/1")
 		return
@@ -283,9 +325,29 @@ func checkC26(r *mon.Run) {
 	// the minimal F5 input first, so that it is the first witness written
 	c26Run(r, c26Case{K: 1, Cands: [][]beaconref.Link{{{IA: 1<<48 | 1, Egress: 1}}, {{IA: 1<<48 | 2, Egress: 1}}}}, false)
 	n := r.Pick(300000, 6000000)
+	tStart := time.Now() // phase durations are reported in the evidence only, they decide nothing
 	for i := 0; i < n; i++ {
-		c26Run(r, c26Gen(rng), i%(n/6) == 17)
+		c26Run(r, c26Gen(rng), i%(n/4) == 17) // 4 samples; the history phase adds its own
 	}
-	r.Require(int64(n), 20, "select_all", "select_k1", "select_most-diverse", "select_first-remaining")
-	r.RequireClasses("all/n<k", "all/n==k")
+	// history phase (c26hist.go): repeated calls on one algorithm instance, directly and through the stores
+	tHist := time.Now()
+	hrng := r.Rand("c26-history")
+	ha, hs := r.Pick(9000, 180000), r.Pick(1500, 30000)
+	for i := 0; i < ha; i++ {
+		c26AlgoHistory(r, hrng, i == 5)
+	}
+	for i := 0; i < hs; i++ {
+		c26StoreHistory(r, hrng, i == 5 || i == 6)
+	}
+	r.Extra("wall_s_by_phase", map[string]float64{"single-calls": tHist.Sub(tStart).Seconds(), "histories": time.Since(tHist).Seconds()})
+	r.Require(int64(n+ha*4+hs*4), 40, "select_all", "select_k1", "select_most-diverse", "select_first-remaining",
+		"history_select_all", "history_select_k1", "history_select_most-diverse", "history_select_first-remaining",
+		"history_store_select")
+	r.RequireClasses("all/n<k", "all/n==k",
+		"history/new-shortest-same-origin", "history/new-shortest-other-origin", "history/same-first", "history/first-removed",
+		"history/first-changed-to-earlier-candidate", "history/candidates-recur", "history/candidates-added",
+		"history/candidates-removed", "history/k-changed", "history/identical-call",
+		"history/recurring-candidate-diversity-changed", "history/recurring-candidate-diversity-changed/same-origin",
+		"history/store/propagate", "history/store/register-up", "history/store/register-down",
+		"history/core-store/propagate", "history/core-store/register-core")
 }
